@@ -1,0 +1,12 @@
+//go:build verif
+
+package publish
+
+import "net/url"
+
+// VerifSetAPI points the publisher at another API endpoint and sets the retry
+// budget of its HTTP client. Verification builds only.
+func (cf *CloudflarePublisher) VerifSetAPI(base url.URL, retryMax int) {
+	cf.baseURL = base
+	cf.client.RetryMax = retryMax
+}
